@@ -3,12 +3,11 @@ LEVEL = "other"
 
 
 def check(rep, tier):
-    from contracts import rules_exact, core_make, core_rules
+    from contracts import rules_exact, core_make, core_rules, containers, rules_numeric, rules_shape
     core_make.run(rep, tier)
     core_rules.run(rep, tier, parts=("defvjp",))
+    rules_shape.run(rep, tier)
     rules_exact.run(rep, tier, rules_exact.CLAUSE_PROPS["C05"])
-    from contracts import containers
     containers.run_ground(rep, tier)
     containers.run_exact(rep, tier, clauses=('K-structure',))
-    from contracts import rules_numeric
     rules_numeric.run(rep, tier, clauses=('N-shape',))
